@@ -11,7 +11,7 @@
     that lost constexpr - a VIOLATION).  Repeated in other builds (g++ -O2, clang++ -O2; -O0 in thorough).
     TLC evaluates L1 on every recorded case (IntCmpCheck.tla).
 """
-import os, random
+import json, os, random, re
 from concurrent.futures import ThreadPoolExecutor
 from vlib import core, tables
 from vlib.core import MachineryError
@@ -245,6 +245,136 @@ def build_ce(ctx, cxx=None):
     return None
 
 
+CXX_NAMES = ["std::int8_t", "std::uint8_t", "std::int16_t", "std::uint16_t", "std::int32_t", "std::uint32_t", "std::int64_t", "std::uint64_t",
+             "long long", "unsigned long long"]
+
+
+def cxx_literal(t, lim):
+    """a constant expression of C++ type CXX_NAMES[t] with the value [neg, l0..l3]"""
+    m = lim[1] | (lim[2] << 16) | (lim[3] << 32) | (lim[4] << 48)
+    if lim[0]:
+        inner = "(-%dLL - 1)" % (m - 1)          # also right for the minimum of a 64-bit type
+    else:
+        inner = "%dULL" % m
+    return "static_cast<%s>(%s)" % (CXX_NAMES[t], inner)
+
+
+def emitted_rows(out):
+    rows, seen = [], set()
+    for ln in out.splitlines():
+        if ln.startswith('"@E@'):
+            x = json.loads(ln)[3:]
+            if x not in seen:
+                seen.add(x)
+                rows.append(json.loads(x))
+    rows.sort(key=lambda r: (r["T"], r["U"], r["a"], r["b"]))
+    return rows
+
+
+def static_rows(ctx, compilers):
+    """S->C for the constant-expression clause: IntCmpRows.tla enumerates (T, U, a, b, six answers); every row becomes six
+    static_assert declarations; the compiler(s) must accept them all.  A rejected assertion is a VIOLATION whose replay is a
+    translation unit holding just the rejected assertions."""
+    r = core.tlc_model_check(ctx, "IntCmpRows", "IntCmpRows.cfg" if ctx.quick else "IntCmpRows_thorough.cfg",
+                             "rows for the static_assert table: ordered pairs of the 10 standard integer types x boundary values, laws hold on each",
+                             workers=tables.tlc_workers())
+    if r["violated"]:
+        raise MachineryError("IntCmpRows.tla: the laws of IntCmp.tla fail on a row (%s): oracle bug, see %s" % (r["violated"], r["outfile"]))
+    rows = emitted_rows(r["out"])
+    if len(rows) != r["distinct"] or not rows:
+        raise MachineryError("IntCmpRows: %d rows emitted for %d states, see %s" % (len(rows), r["distinct"], r["outfile"]))
+    head = '#include "xtl/xcompare.hpp"\n#include <cstdint>\n'
+    nparts = 4 if ctx.quick else 8
+    d = ctx.sub("static_rows")
+    parts = []
+    for k in range(nparts):
+        path = os.path.join(d, "rows_%d.cpp" % k)
+        linemap = {}
+        with open(path, "w") as f:
+            f.write(head)
+            ln = 3
+            for i in range(k, len(rows), nparts):
+                row = rows[i]
+                a, b = cxx_literal(row["T"], row["a"]), cxx_literal(row["U"], row["b"])
+                for bit, fn in enumerate(FUNCS):
+                    exp = "true" if (row["m"] >> bit) & 1 else "false"
+                    f.write('static_assert(xtl::%s(%s, %s) == %s, "row %d %s");\n' % (fn, a, b, exp, i, fn))
+                    linemap[ln] = (i, fn)
+                    ln += 1
+            f.write("int main() { return 0; }\n")
+        parts.append((path, linemap))
+
+    def compile_one(job):
+        cxx, (path, linemap) = job
+        rc, o = core.sh([cxx, "-std=c++14", "-fsyntax-only", "-ferror-limit=0" if "clang" in cxx else "-fmax-errors=0", "-I", core.INCLUDE, path], timeout=1500)
+        return cxx, path, linemap, rc, o
+    jobs = [(c, p_) for c in compilers for p_ in parts]
+    bad = {}
+    other = []
+    with ThreadPoolExecutor(max(1, min(core.NCPU, len(jobs)))) as ex:
+        for cxx, path, linemap, rc, o in ex.map(compile_one, jobs):
+            if rc == 0:
+                continue
+            hit = False
+            for m in re.finditer(r"%s:(\d+):\d+: error: ([^\n]*)" % re.escape(path), o):
+                ln = int(m.group(1))
+                if ln in linemap:
+                    hit = True
+                    bad.setdefault((cxx,) + linemap[ln], m.group(2)[:200])
+            if not hit:
+                other.append((cxx, path, rc, o[-1500:]))
+    ctx.notes["static_assert_rows"] = {"rows": len(rows), "assertions": 6 * len(rows), "compilers": compilers, "rejected": len(bad)}
+    ctx.cov["evaluations"] += 6 * len(rows) * len(compilers)
+    if bad:
+        # one replay per (compiler, function), each with at most 8 rejected assertions
+        groups = {}
+        for (cxx, i, fn), msg in sorted(bad.items()):
+            groups.setdefault((cxx, fn), []).append((i, msg))
+        os.makedirs(ctx.replays, exist_ok=True)
+        for (cxx, fn), items in list(groups.items())[:tables.MAX_CONFIRM]:
+            rp = os.path.join(ctx.replays, "sa_rows_%s_%s.cpp" % (fn, os.path.basename(cxx)))
+            with open(rp, "w") as f:
+                f.write("// C15 replay: %s -std=c++14 -fsyntax-only -I<xtl include> %s\n// rows enumerated by specs/IntCmpRows.tla; expected answers from specs/IntCmp.tla\n" % (cxx, os.path.basename(rp)))
+                f.write(head)
+                for i, msg in items[:8]:
+                    row = rows[i]
+                    exp = "true" if (row["m"] >> FUNCS.index(fn)) & 1 else "false"
+                    f.write('static_assert(xtl::%s(%s, %s) == %s, "row %d %s");\n' % (fn, cxx_literal(row["T"], row["a"]), cxx_literal(row["U"], row["b"]), exp, i, fn))
+                f.write("int main() { return 0; }\n")
+            i, msg = items[0]
+            row = rows[i]
+            ctx.violation("xtl::%s(%s %s, %s %s) in a constant expression (%s): expected %s from IntCmp.tla; the compiler says: %s  [%d assertions on %s rejected]"
+                          % (fn, NAMES[row["T"]], row["a"], NAMES[row["U"]], row["b"], cxx, bool((row["m"] >> FUNCS.index(fn)) & 1), msg, len(items), fn), replay_path=rp)
+    elif other:
+        cxx, path, rc, o = other[0]
+        raise MachineryError("the static_assert table %s does not compile with %s (rc=%s) for a reason that is not one of its assertions:\n%s" % (path, cxx, rc, o))
+    return len(rows)
+
+
+def domain_probe(ctx):
+    """Operands outside the statement's domain (enumerations, floating point, __int128): facts for the evidence, ADVISORY lines
+    where a call compiles and does not return the comparison of the mathematical values.  Never part of the verdict."""
+    src = os.path.join(core.HARNESS, "cmp", "domain_probe.cpp")
+    what = {1: "unscoped enumeration operands", 2: "scoped enumeration operand", 3: "floating-point operand", 4: "__int128 operands"}
+    facts = {}
+    for pr, std in ((1, "c++14"), (2, "c++14"), (3, "c++14"), (4, "c++14"), (4, "gnu++14")):
+        exe = os.path.join(ctx.work, "domain_probe_%d_%s" % (pr, std.replace("+", "p")))
+        rc, o = core.sh([core.CXX, "-std=" + std, "-DPROBE=%d" % pr, "-I", core.INCLUDE, src, "-o", exe], timeout=300)
+        key = "%s (-std=%s)" % (what[pr], std)
+        if rc != 0:
+            facts[key] = "rejected at compile time: " + " | ".join([l.strip() for l in o.splitlines() if "error" in l][:1])[:240]
+            continue
+        rc, o = core.sh([exe], timeout=60)
+        rows = [json.loads(l) for l in o.splitlines() if l.startswith("{")]
+        wrong = [r["what"] for r in rows if r["got"] != r["math"] and not r["what"].startswith("std::is_")]
+        facts[key] = {"accepted": True, "calls": len(rows), "traits": {r["what"]: r["got"] for r in rows if r["what"].startswith("std::is_")},
+                      "not_the_mathematical_answer": wrong}
+        if wrong:
+            ctx.drift.append("ADVISORY operands outside the statement's domain: %s are accepted and %d of %d probed calls do not return the comparison of the "
+                             "mathematical values, e.g. %s (std::cmp_* reject such operands)" % (key, len(wrong), len(rows) - len(facts[key]["traits"]), wrong[0]))
+    ctx.notes["operands_outside_the_statement"] = facts
+
+
 def describe(l):
     if l["op"] == "R":
         first, second = (NAMES[l["T"]], NAMES[l["U"]]) if l["side"] == 0 else (NAMES[l["U"]], NAMES[l["T"]])
@@ -253,6 +383,14 @@ def describe(l):
 
 
 def replay(ctx, path):
+    if os.path.basename(path).startswith("sa_rows_"):
+        cxx = "clang++" if path.endswith("clang++.cpp") else core.CXX
+        rc, o = core.sh([cxx, "-std=c++14", "-fsyntax-only", "-I", core.INCLUDE, path], timeout=600)
+        if rc == 0:
+            print("replay accepted: the compiler accepts the recorded static_assert rows")
+            return 0
+        print("VIOLATION property=C15 replay=%s\n  %s" % (path, "\n  ".join([l for l in o.splitlines() if "error" in l][:4])))
+        return 1
     if os.path.basename(path).startswith(("ce_probe_", "ce_table_")):
         rc, o = core.sh([core.CXX, "-std=c++14", "-fsyntax-only", "-I", core.INCLUDE, "-I", os.path.join(core.HARNESS, "common"), path], timeout=600)
         if rc == 0:
@@ -306,6 +444,9 @@ def run(ctx):
     if any(d is None for d in drvs.values()):      # the functions cannot be called as the property states: reported by build()
         return core.finish(ctx, "exploration", rule="the conformance driver does not build against this tree; no call was made",
                            assumptions=[], exhaustive=False)
+    domain_probe(ctx)
+    nrows = static_rows(ctx, [core.CXX] + ([] if q else ["clang++"]))
+    ctx.log("static_assert table: %d rows x 6 functions accepted by the compiler(s)" % nrows if not ctx.violations else "static_assert table: rejected assertions (see above)")
     cel = sc.pop("constexpr")
     jobs = []
     for name, lines in sc.items():
